@@ -114,9 +114,11 @@ struct ConcRun {
     struct Scratch {
         Buf gt1, g1, g2, g1a, g2a, key, keyb, key2, keyb2, ct, sig, pre, params, paramsh, ap, pp, lqct, lqsk, lqparams2, lqid2, lqmsk2, bytes; uint8_t sym[64]; Frv fr;
         Stream stream; HashStub hash;
-        void init(Rep& R) {
-            gt1.alloc(576); g1.alloc(144); g2.alloc(288); g1a.alloc(R.sz(JV_SZ_G1A)); key.alloc(R.sz(JV_SZ_WK_SK)); keyb.alloc(4 * R.sz(JV_SZ_WK_FREESLOT));
-            ct.alloc(R.sz(JV_SZ_WK_CT)); sig.alloc(R.sz(JV_SZ_WK_SIG)); params.alloc(R.sz(JV_SZ_WK_PARAMS)); paramsh.alloc(3 * R.sz(JV_SZ_G1));
+        // fill: what the output objects hold before the first call. The solo and the concurrent phase use different fills, so M-solo also
+        // says "results do not depend on what an output object held before".
+        void init(Rep& R, int fill = 0) {
+            gt1.alloc(576, fill); g1.alloc(144, fill); g2.alloc(288, fill); g1a.alloc(R.sz(JV_SZ_G1A), fill); key.alloc(R.sz(JV_SZ_WK_SK), fill); keyb.alloc(4 * R.sz(JV_SZ_WK_FREESLOT), fill);
+            ct.alloc(R.sz(JV_SZ_WK_CT), fill); sig.alloc(R.sz(JV_SZ_WK_SIG), fill); params.alloc(R.sz(JV_SZ_WK_PARAMS), fill); paramsh.alloc(3 * R.sz(JV_SZ_G1), fill);
             ap.alloc(2 * std::max(R.jv_pair_size(0, 0), R.jv_pair_size(1, 0))); pp.alloc(std::max(R.jv_pair_size(0, 1), R.jv_pair_size(1, 1))); memset(ap.p, 0xEE, ap.n); memset(pp.p, 0xEE, pp.n); lqct.alloc(R.sz(JV_SZ_LQ_CT)); lqsk.alloc(R.sz(JV_SZ_LQ_SK)); lqparams2.alloc(R.sz(JV_SZ_LQ_PARAMS)); lqid2.alloc(R.sz(JV_SZ_LQ_ID)); lqmsk2.alloc(R.sz(JV_SZ_LQ_MSK));
             g2a.alloc(R.sz(JV_SZ_G2A)); key2.alloc(R.sz(JV_SZ_WK_SK)); keyb2.alloc(4 * R.sz(JV_SZ_WK_FREESLOT)); pre.alloc(R.sz(JV_SZ_WK_PRE)); bytes.alloc(4096);
             stream.reqs.reserve(4096);
@@ -153,7 +155,10 @@ struct ConcRun {
         case 17: { r.jv_wk_params_init(s.params, s.paramsh, 3); int ok; { InLib g; ok = r.jv_wk_unmarshal(view, JV_OK_WK_PARAMS, s.params, params_bytes.data(), 1, (int) (a & 1)); } std::vector<uint8_t> bb = marshal_digest(JV_OK_WK_PARAMS, s.params); d = strf("%d:", ok) + sha_hex(bb.data(), bb.size(), 12); break; }
         case 18: { jv_attrs al = (b & 2) ? mk_attrs(sh_desc, 3) : mk_attrs(at, 2); { InLib g; r.jv_wk_precompute(view, s.pre, wparams, &al); r.jv_wk_encrypt_precomputed(view, s.ct, gt, wparams, s.pre, jv_rand_cb); } std::vector<uint8_t> bb = marshal_digest(JV_OK_WK_CT, s.ct); d = sha_hex(bb.data(), bb.size(), 12); break; }
         case 19: { r.jv_wk_sk_init(s.key, s.keyb); jv_attrs al = mk_attrs(at, 1); { InLib g; r.jv_wk_precompute(view, s.pre, wparams, &al); r.jv_wk_resamplekey(view, s.key, wparams, s.pre, wkey, (int) (a & 1), jv_rand_cb); } d = key_digest(s.key); break; }
-        case 20: { r.jv_wk_sk_init(s.key, s.keyb); jv_attrs f = mk_attrs(at, 2), t3 = mk_attrs(at, 3), t1 = mk_attrs(at, 1); { InLib g; r.jv_wk_nd_qualifykey(view, s.key, wparams, wkey, &f); r.jv_wk_adjust_nd(view, s.key, wkey, &f, (a & 1) ? &t3 : &t1); } d = key_digest(s.key); break; }
+        case 20: { r.jv_wk_sk_init(s.key, s.keyb); jv_attrs f = mk_attrs(at, 2), t3 = mk_attrs(at, 3), t1 = mk_attrs(at, 1);
+                   if (b % 3 == 0) {   // adjusting to the same list, on a key object that is not fresh: a valid header (the parent's), a stale count and whatever the slot array held
+                       r.jv_wk_sk_stale_from(s.key, wkey, 2); jv_attrs e0 = mk_attrs(at, 0); { InLib g; r.jv_wk_adjust_nd(view, s.key, wkey, &e0, &e0); } d = key_digest(s.key); break; }
+                   { InLib g; r.jv_wk_nd_qualifykey(view, s.key, wparams, wkey, &f); r.jv_wk_adjust_nd(view, s.key, wkey, &f, (a & 1) ? &t3 : &t1); } d = key_digest(s.key); break; }
         case 21: { jv_attrs al = mk_attrs(at, 1); int ok; { InLib g; r.jv_wk_precompute(view, s.pre, wparams, &al); r.jv_wk_sign_precomputed(view, s.sig, wparams, wkey, &al, s.pre, sc, jv_rand_cb); ok = r.jv_wk_verify_precomputed(view, wparams, s.pre, s.sig, sc); } std::vector<uint8_t> bb = marshal_digest(JV_OK_WK_SIG, s.sig); d = strf("%d:", ok) + sha_hex(bb.data(), bb.size(), 12); break; }
         case 22: { uint8_t h[96]; Rng rr(a); rr.fill(h, 96); { InLib g; r.jv_g2affine_from_hash(view, s.g2a, h); } uint8_t c[193]; r.jv_g2a_canon(c, s.g2a); d = sha_hex(c, 193, 12); break; }
         case 23: { int ok1, ok2; { InLib g; r.jv_g1_marshal(view, s.bytes.p, g1p[a % 3], (int) (b & 1)); ok1 = r.jv_g1_unmarshal(view, s.g1a, s.bytes.p, (int) (b & 1), 1); r.jv_g2_marshal(view, s.bytes.p + 256, g2p[a % 3], (int) (b & 1)); ok2 = r.jv_g2_unmarshal(view, s.g2a, s.bytes.p + 256, (int) (b & 1), 1); } uint8_t c[193]; r.jv_g2a_canon(c, s.g2a); d = strf("%d%d:", ok1, ok2) + sha_hex(s.bytes.p, 512, 12) + sha_hex(c, 193, 6); break; }
@@ -204,13 +209,13 @@ struct ConcRun {
         for (auto& op : plan.ops) if (op.kind == "T") scripts[(size_t) op.arg(3) % ntasks].push_back(op);
         // ---- M-solo: every script alone, one after another
         std::vector<TaskOut> solo(ntasks), conc(ntasks);
-        { std::vector<Scratch> sc(ntasks); for (size_t t = 0; t < ntasks; t++) { sc[t].init(R); for (auto& op : scripts[t]) { uint64_t h0 = tl_hook_calls; solo[t].digests.push_back(exec(op, sc[t])); env.lib_calls++;
+        { std::vector<Scratch> sc(ntasks); for (size_t t = 0; t < ntasks; t++) { sc[t].init(R, 0xEE); for (auto& op : scripts[t]) { uint64_t h0 = tl_hook_calls; solo[t].digests.push_back(exec(op, sc[t])); env.lib_calls++;
             // M-repeat: the same call again, on the same caller objects (records, scratch, outputs left as the first call left them), must give
             // the same result: "functions keep no mutable state between calls" includes state parked in caller-visible records
             { std::string again = exec(op, sc[t]); env.lib_calls++; if (again != solo[t].digests.back()) env.fail("C20", "M-repeat:same-call-same-result", strf("task %zu op kind %lld gives %s the first time and %s when the identical call is repeated on the same objects", t, (long long) op.arg(0) % NKINDS, solo[t].digests.back().c_str(), again.c_str())); } env.logf("SOLO t%zu k%lld fieldmults=%llu", t, (long long) op.arg(0) % NKINDS, (unsigned long long) (tl_hook_calls - h0)); } } }
         // ---- the same scripts as concurrent tasks under the seeded scheduler
         Scheduler sched; sched.p_switch_log2 = (uint32_t) plan.c("pswitch", 6);
-        std::vector<Scratch> sc(ntasks); for (auto& s : sc) s.init(R);
+        std::vector<Scratch> sc(ntasks); for (auto& s : sc) s.init(R, 0x11);
         std::vector<int> cur_kind(ntasks, -1); std::vector<std::pair<int, int>> ilv; ilv.reserve(1 << 16);
         sched.on_switch = [&](int from, int to) { if (ilv.size() < ilv.capacity()) ilv.push_back({cur_kind[(size_t) from], cur_kind[(size_t) to]}); };
         for (size_t t = 0; t < ntasks; t++) { conc[t].digests.reserve(scripts[t].size() + 1); sched.add([this, t, &scripts, &sc, &conc, &cur_kind] { int my_step = 0; tl_step_ptr = &my_step; for (auto& op : scripts[t]) { cur_kind[t] = (int) (op.arg(0) % NKINDS); conc[t].digests.push_back(exec(op, sc[t])); my_step++; } cur_kind[t] = -1; tl_step_ptr = nullptr; }); }
